@@ -38,13 +38,14 @@ def run(ctx) -> None:
     ctx.rule("C04.map", "T7: status->exception map and has_primals are well-formed; check_solver_status raises outside OPTIMAL/has_primals", floor=4)
     ctx.rule("C04.snapshot", "T8: Solution(...) only receives scalars and storage allocated inside get_solution", floor=5)
     ctx.rule("C04.net", "T5: result entries are forward - reverse, unconditionally", floor=4)
-    ctx.rule("C01.bounds", "finite orderings: update_variable_bounds (shared with C01)", floor=1)
     check_accessors(ctx)
     check_exits(ctx)
     check_map(ctx)
     check_snapshot(ctx)
     check_net(ctx)
-    c01.check_bounds(ctx)
+    # the optimum that is reported is the optimum of the problem the solver holds: that this is the model's
+    # flux-balance problem after every edit is C01 - its whole rule set is a necessary condition here (shared)
+    c01.run(ctx)
     from . import objform
 
     ctx.rule("C04.objective", "finite evaluation: set_objective leaves exactly the given coefficients in the solver objective", floor=1)
